@@ -1,6 +1,7 @@
 #include "soplex.h"
 #include "soplex_interface.h"
 #include <iostream>
+#include <cstdlib>
 
 using namespace soplex;
 
@@ -248,7 +249,7 @@ char* SoPlex_getPrimalRationalString(void* soplex, int dim)
    }
 
    stringlength = strlen(primalstring.c_str()) + 1;
-   rawstring = new char[stringlength];
+   rawstring = (char*) malloc(stringlength);
    strncpy(rawstring, primalstring.c_str(), stringlength);
    return rawstring;
 }
@@ -445,7 +446,7 @@ char* SoPlex_objValueRationalString(void* soplex)
 
    objstring = so->objValueRational().str();
    stringlength = strlen(objstring.c_str()) + 1;
-   value = new char[stringlength];
+   value = (char*) malloc(stringlength);
    strncpy(value, objstring.c_str(), stringlength);
    return value;
 }
